@@ -511,6 +511,11 @@ func (env *SpecEnv) call(e *ECall) *Val {
 		return env.eval(e.Args[i])
 	}
 	switch e.Fn {
+	case "entry":
+		// entry(e): value of e when the function under contract was entered
+		n := *env
+		n.cur = entryView{env.st}
+		return n.eval(e.Args[0])
 	case "len":
 		x := arg(0)
 		switch x.T.Sort {
@@ -676,6 +681,15 @@ func (env *SpecEnv) call(e *ECall) *Val {
 		}
 		dk, _, _ := mapKeys(mt)
 		return scalar(mkSelect(env.cur.comp(dk, arraySort(SInt, arraySort(sortOfType(mt.Key()), SBool))), m.T), nil)
+	case "cell":
+		// cell([]T, a, j): element j of the backing array a of element type T
+		t := env.typeArg(e.Args[0])
+		sl, ok := t.Underlying().(*types.Slice)
+		if !ok {
+			env.fail("cell needs a slice type")
+		}
+		_, comp := ex.elemsComp(env.cur, sl.Elem())
+		return scalar(mkSelect(mkSelect(comp, arg(1).T), arg(2).T), sl.Elem())
 	case "elemsrow":
 		s := arg(0)
 		sl := s.Typ.Underlying().(*types.Slice)
